@@ -325,6 +325,28 @@ def run(scn, st):
                     if sorted(wn) == sorted(names) and names not in (wn, wn[::-1]):
                         raise core.Violation("linear-path-order", "linear path %r is not the chain %r in either direction" %
                                              (names, wn), what="order")
+            # linear_path(s), asked for single segments one after the other (by name and by line, some twice):
+            # the maximal chain s belongs to, in one of the two directions; nothing longer than s alone otherwise
+            incyc = set(x for c in cycles for x in c)
+            segnames = sorted(l.name for l in g.segments)
+            for j, sn in enumerate(segnames + segnames[:2]):
+                if sn in incyc:
+                    continue
+                arg = sn if j % 2 == 0 else g.segment(sn)
+                o2 = core.call(g.linear_path, arg)
+                st.count("oracle.linear_path_single")
+                if not o2.ok:
+                    raise core.Violation("linear-paths-raised", "linear_path(%r) raised %s: %s" % (sn, o2.excname, str(o2.exc)[:200]),
+                                         exc=o2.excname, frame=o2.frame)
+                names = [se.name for se in o2.value]
+                mine = [[x[0] for x in wk] for wk, _c in paths if sn in [x[0] for x in wk]]
+                if mine:
+                    if names not in (mine[0], mine[0][::-1]):
+                        raise core.Violation("linear-path-single", "linear_path(%r)=%r (call %d of this step), the maximal chain is %r" %
+                                             (sn, names, j + 1, mine[0]), what="single")
+                elif len(names) > 1:
+                    raise core.Violation("linear-path-single", "linear_path(%r)=%r but %r is on no chain" % (sn, names, sn),
+                                         what="single-none")
         elif k == "merge":
             if pre is None:
                 return
